@@ -18,7 +18,7 @@ ASSUMPTIONS = [
     "1e-4 relative (+1e-6*|mean| absolute for std, since the library accumulates in float32)",
     "warm-up schedule checked for epoch callbacks in order (0,1,2,...) incl. repeated callbacks and epochs beyond n_epochs",
 ]
-REQUIRED_COUNTERS = ["warmup_fit_runs", "scaler_calls", "scaler_outputs_checked", "ema_calls", "warmup_calls", "warmup_epoch_callbacks", "ema_exact_zero_followups"]
+REQUIRED_COUNTERS = ["warmup_fit_runs", "scaler_calls", "scaler_outputs_checked", "ema_calls", "warmup_calls", "warmup_epoch_callbacks", "ema_exact_zero_followups", "ema_kept_values_checked"]
 MIN_NONTRIVIAL = {"quick": 100, "thorough": 1000}
 WORKERS = {"quick": 8, "thorough": 16}
 BUDGET_S = {"quick": 300, "thorough": 1500}
@@ -174,6 +174,7 @@ def run_case(ctx, case):
             beta = 0.0
         v = None
         sizes = set()
+        kept = []  # the value objects handed out at each call, as a caller keeps them (logged after the epoch, n-step buffers)
         for t in range(case["steps"]):
             r = draw(case["mag"], -5.0 * case["mag"]).reshape(-1)
             # histories whose running average is EXACTLY zero at some point (an all-zero or cancelling first batch; with
@@ -201,6 +202,14 @@ def run_case(ctx, case):
                 ctx.violation(dict(sig, q="grad"), "baseline value carries gradient", dict(t=t))
             if not (loss == 0):
                 ctx.violation(dict(sig, q="loss"), "exponential baseline must have zero loss", dict(t=t))
+            kept.append((val, v))
+        # the values handed out earlier stay what they were: value t is the average after call t, whatever happened afterwards
+        for t, (val_t, v_t) in enumerate(kept):
+            ctx.count("ema_kept_values_checked")
+            if not close(float(val_t), v_t, 1e-4, 1e-6 * case["mag"]):
+                ctx.evaluation()
+                ctx.violation(dict(kind="ema", via=case["via"], q="handed_out_value_changed"), f"the baseline value handed out at call {t} was {v_t}; after {len(kept) - 1 - t} later call(s) the same object reads {float(val_t)}", dict(t=t))
+                break
         if len(sizes) >= 3:
             ctx.nontrivial_case(case)
 
